@@ -69,7 +69,7 @@ static int cfg_metrics;
 static char scratch[160] = "/var/tmp";
 static int sink_fd; static struct sockaddr_in sink_addr;
 static struct { long k; long d; } eintr[64]; static int neintr;
-static long npolls;
+static long npolls, polllimit = 400;
 
 /* ------------------------------------------------------------------ thread pool gate */
 static pthread_mutex_t gm = PTHREAD_MUTEX_INITIALIZER;
@@ -151,8 +151,8 @@ int epoll_pwait(int epfd, struct epoll_event* ev, int maxev, int timeout, const 
   int n = syscall(SYS_epoll_pwait, epfd, ev, maxev, 0, NULL, 8);
   if (n < 0) n = 0;
   if (n == 0) {
-    if (timeout == -1) {
-      printf("env poll iter=%llu timeout=-1 clock=%llu done=%d -> DEADLOCK\n", it, (unsigned long long) vclock_ms, done);
+    if (timeout == -1 || k >= polllimit) {   /* nothing will ever happen / starvation guard */
+      printf("env poll iter=%llu timeout=%d clock=%llu done=%d -> DEADLOCK\n", it, timeout, (unsigned long long) vclock_ms, done);
       fflush(stdout); gate_forever = 1; _exit(0);
     }
     if (timeout > 0) vclock_ms += timeout;
@@ -425,6 +425,7 @@ int main(int argc, char** argv) {
       if (sscanf(line, "config metrics %ld", &v) == 1) cfg_metrics = (int) v;
       else if (sscanf(line, "config clock0 %ld", &v) == 1) vclock_ms = (uint64_t) v;
       else if (sscanf(line, "config cblimit %ld", &v) == 1) cblimit = v;
+      else if (sscanf(line, "config polllimit %ld", &v) == 1) polllimit = v;
       else if ((p = strstr(line, "eintr")) != NULL) {
         p += 5; char* save; for (char* t = strtok_r(p, " ", &save); t && neintr < 64; t = strtok_r(NULL, " ", &save))
           if (sscanf(t, "%ld:%ld", &eintr[neintr].k, &eintr[neintr].d) == 2) neintr++;
